@@ -579,6 +579,9 @@ func (n *Node) Peek() store.Store {
 	return store.New(ktds.Wrap(&peekHandle{h}, ktds.PrefixTransform{Prefix: ds.NewKey("0")}))
 }
 
+// PeekDS returns a read-only datastore view of the durable image, independent of incarnations (writes fail).
+func (d *Disk) PeekDS() ds.Batching { return &peekHandle{&Handle{d: d, epoch: -1}} }
+
 // peekHandle reads regardless of fences.
 type peekHandle struct{ *Handle }
 
